@@ -532,6 +532,8 @@ def exec_for(ex: Exec, st: ast.For) -> None:
         if getattr(ex, "_elt_def", False) and it.seq is not None:
             # ground instance of elt's definition at the element this iteration visits
             ex.assume(S.elt_link(it.seq, i))
+        if getattr(ex, "_elt_def", False) and getattr(it, "keys_of", None) is not None:
+            ex.assume(S.elt_link(ex.seq(it.keys_of), i))  # dict iteration: the key visited
         _bind_target(ex, st.target, it.get(i))
         saved_counter = ex.loop_counter
         try:
